@@ -867,4 +867,51 @@ def corpus(tier):
     ]
     for nm, d, drv, pyd in PAN:
         U.append(Unit(nm, d, drv, py_decls=pyd, tags=("runtime-error", nm), panics=True))
+    U.extend(grammar_units(tier))
     return U
+
+
+# =====================================================================================================================
+# Statement-sequence grammar: every sequence of <= 2 statements over two mutable ints (operation sequences up to a depth)
+# =====================================================================================================================
+SIMPLE = ["x += y", "x -= 1", "y = x * 2 - y", "y = x // 3", "x %= 5", "x = -x", "y += x % 3", "x = x * y"]
+INNER = ["x += y", "y -= 1", "x = x * 2 - y"]
+
+
+def grammar_statements():
+    out = [(f"simple:{s}", s) for s in SIMPLE]
+    for s in INNER:
+        for t in INNER:
+            out.append((f"ifelse:{s}|{t}", f"if x < y:\n    {s}\nelse:\n    {t}"))
+        out.append((f"if:{s}", f"if x % 2 == 0:\n    {s}"))
+        out.append((f"for:{s}", f"for i in range(3):\n    {s}"))
+        out.append((f"for-continue:{s}", f"for i in range(4):\n    if i == 2:\n        continue\n    {s}"))
+        out.append((f"for-break:{s}", f"for i in range(5):\n    if i == 3:\n        break\n    {s}"))
+        out.append((f"while:{s}", "mut kk = 0\nwhile kk < 3:\n    kk += 1\n    " + s))
+        out.append((f"and:{s}", f"if x < y and y > 0:\n    {s}"))
+        out.append((f"or:{s}", f"if x < y or x == 0:\n    {s}"))
+        out.append((f"for-nested-if:{s}", f"for i in range(3):\n    if i % 2 == 0:\n        {s}\n    else:\n        y += i"))
+    for k, (s, t, u) in enumerate([(INNER[0], INNER[1], INNER[2]), (INNER[1], INNER[2], INNER[0]), (INNER[2], INNER[0], INNER[1])]):
+        out.append((f"elif:{k}", f"if x < 0:\n    {s}\nelif x == 0:\n    {t}\nelse:\n    {u}"))
+        out.append((f"match:{k}", f"match x % 3:\n    case 0:\n        {s}\n    case 1:\n        {t}\n    case _:\n        {u}"))
+    return out
+
+
+def grammar_units(tier):
+    sts = grammar_statements()
+    seqs = [(a,) for a in sts]
+    second = sts if tier == "thorough" else [sts[0], sts[2], sts[4], sts[8], sts[12], sts[-1]]
+    for a in sts:
+        for b in second:
+            seqs.append((a, b))
+    args = [(-7, 3), (0, 0), (2, 5), (10, -4)]
+    units = []
+    for k, seq in enumerate(seqs):
+        body = ""
+        for j, (_, text) in enumerate(seq):
+            body += text.replace("kk", f"k{j}").replace("for i in", f"for i{j} in").replace("if i ==", f"if i{j} ==").replace("if i %", f"if i{j} %").replace("y += i", f"y += i{j}") + "\n"
+        nm = f"gq{k}"
+        decl = f"def {nm}(x0: int, y0: int) -> int:\n    mut x = x0\n    mut y = y0\n" + ind(body.rstrip("\n")) + "\n    return x * 1000 + y"
+        drv = "\n".join(f"println({nm}({a}, {b}))" for a, b in args)
+        units.append(Unit(nm, decl, drv, tags=("seq",) + tuple(n for n, _ in seq)))
+    return units
